@@ -3,11 +3,11 @@ CONSTANTS
   RtLen = 2
   RtTuple = 2
   Emit = FALSE
-  StripAllCR = TRUE
+  StripAllCR = FALSE
   SplitAtCR = FALSE
   DropFinal = FALSE
   LossyUtf8 = FALSE
   EncodeLFs = 1
-  EofSkipsDecode = FALSE
+  EofSkipsDecode = TRUE
 SPECIFICATION Spec
 CHECK_DEADLOCK FALSE
